@@ -1145,4 +1145,19 @@ theorem render_eq (c : Colors) (m : Markup.M (List Node)) (w : Int) :
   · simp [h]; rfl
 
 
+mutual
+theorem toDom_ofDom : (n : Dom.Node) → toDom (ofDom n) = n
+  | .text d => by simp [ofDom, toDom]
+  | .other => by simp [ofDom, toDom]
+  | .elem tag attrs kids => by
+    simp only [ofDom, toDom, toDomList_ofDomList kids, List.map_map]
+    congr 1
+    induction attrs with
+    | nil => rfl
+    | cons x xs ih => simp [ih]
+theorem toDomList_ofDomList : (f : List Dom.Node) → toDomList (ofDomList f) = f
+  | [] => by simp [ofDomList, toDomList]
+  | n :: ns => by simp [ofDomList, toDomList, toDom_ofDom n, toDomList_ofDomList ns]
+end
+
 end Gen15hP
